@@ -167,6 +167,11 @@ func (s *Scanner) scanEscape(quote rune) bool {
 		s.advance()
 		return true
 	default:
+		// the backslash may be the last character of the source
+		width := uint(2)
+		if s.peekNext() == eof {
+			width = 1
+		}
 		s.err(
 			ddperror.SYN_MALFORMED_LITERAL,
 			token.Range{
@@ -176,7 +181,7 @@ func (s *Scanner) scanEscape(quote rune) bool {
 				},
 				End: token.Position{
 					Line:   s.line,
-					Column: s.column + 2,
+					Column: s.column + width,
 				},
 			},
 			fmt.Sprintf("Unbekannte Escape Sequenz '\\%v'", s.peekNext()),
